@@ -144,6 +144,12 @@ func buildFile(fc fileCase) (f *ach.File, panicked any) {
 			return g, nil
 		}
 		return genValidFile(fc), nil
+	case "readercut": // phase 5: the Reader stopped by a caller-set line limit (SetMaxLines(Seed)): Read returns ErrFileTooLong before File.IsADV
+		text, _ := hex.DecodeString(fc.TextHex)
+		r := ach.NewReader(bytes.NewReader(text))
+		r.SetMaxLines(int(fc.Seed))
+		file, _ := r.Read()
+		return &file, nil
 	case "newbatch": // phase 5: NewFile + AddBatch(NewBatch(header with this SEC code)) for the SEC codes in Name, nothing else
 		return newBatchFile(strings.Split(fc.Name, ",")), nil
 	case "gentext": // the same file written out and read back by the Reader under the case's options
